@@ -526,7 +526,77 @@ def r10(ctx):
     ctx.floor(R, 1)
 
 
+def r11(ctx):
+    R = "C18-R11"
+    ctx.rule(R, "(a) the two fd tables move together: a function of the file shim that registers a new fd in Fs::open_handles also registers it "
+                "in Fs::direct_io_fds (under the handle's O_DIRECT test), and one that removes an fd removes it from both - the ring looks an fd "
+                "up in these tables only, so a clone of an O_DIRECT handle that is missing from direct_io_fds skips the alignment check "
+                "the file API applies; (b) rejecting submission flags is monotone: Flags::has_unsupported never tests that a masked bit "
+                "is *absent* (`bits & M == 0`) - with such a test one flag makes a rejected combination acceptable")
+    OH, DF = "turmoil_fs::Fs::open_handles", "turmoil_fs::Fs::direct_io_fds"
+    ADD = re.compile(r"^indexmap::Index(Map|Set)::(insert|insert_full)$")
+    DEL = re.compile(r"^indexmap::Index(Map|Set)::(swap_remove|shift_remove|remove)$")
+    roots = {}
+    for b in sorted(ctx.w.bodies.values(), key=lambda x: x.id):
+        if b.crate != "turmoil_fs":
+            continue
+        for kind, pat in (("add", ADD), ("del", DEL)):
+            for bb, t in b.calls(pat):
+                fs = _fields(b, t["args"][0]) if t["args"] else []
+                for f in (OH, DF):
+                    if f in fs:
+                        root = b
+                        while root.parent and root.parent in ctx.w.bodies:
+                            root = ctx.w.bodies[root.parent]
+                        roots.setdefault((root.id, kind), {}).setdefault(f, t["s"])
+    n = 0
+    for (rid, kind), got in sorted(roots.items()):
+        if OH not in got:
+            continue
+        n += 1
+        ok = DF in got
+        ctx.inst(R, f"fd-tables:{rid}:{kind}", ok, got[OH], f"open_handles and direct_io_fds are both {'extended' if kind == 'add' else 'shrunk'}" if ok else
+                 f"`{rid}` {'registers a new fd in' if kind == 'add' else 'removes an fd from'} Fs::open_handles but not {'in' if kind == 'add' else 'from'} Fs::direct_io_fds: "
+                 + ("a handle cloned from an O_DIRECT file is buffered for the ring - a misaligned ring write on it succeeds where the file API returns EINVAL" if kind == "add" else
+                    "a closed O_DIRECT fd number stays marked, and the next file that gets the number is treated as O_DIRECT by the ring"))
+    if ctx.config in ("all", "fs", "fs_iou") or ctx.strict:
+        ctx.floor(R, 3)
+    hu = ctx.w.bodies.get("turmoil_io_uring::squeue::Flags::has_unsupported")
+    if hu:
+        bad = []
+        for bb, i, st in hu.all_stmts():
+            r = st["r"]
+            if i == "term" or r["k"] != "bin" or r["op"] not in ("Eq", "Ne"):
+                continue
+            sides = [(r["a"], r["b"]), (r["b"], r["a"])]
+            for x, z in sides:
+                c = op_const(z)
+                if c is None or c.get("v") != 0:
+                    continue
+                at = Slicer(ctx.w).atoms(hu, x)
+                if "binop:BitAnd" not in at:
+                    continue
+                absent = r["op"] == "Eq"
+                # `!(bits & M == 0)`: a direct negation turns the test back into a presence test
+                dst = st["p"]["l"]
+                if any(s2["r"]["k"] == "un" and s2["r"]["op"] == "Not" and (op_place(s2["r"]["a"]) or {}).get("l") == dst for _, i2, s2 in hu.all_stmts() if i2 != "term"):
+                    absent = not absent
+                if absent:
+                    bad.append(st["s"])
+        ctx.inst(R, "flags:rejection-is-monotone", not bad, bad[0] if bad else hu.span, "a flag set is rejected because of the bits it has, never because of bits it lacks" if not bad else
+                 "Flags::has_unsupported tests that a masked bit is absent: a combination that contains the accepted flag (ASYNC | IO_LINK, ASYNC | FIXED_FILE) is no longer rejected - "
+                 "the SQE is executed (the write lands, the cancel cancels) instead of completing with -EINVAL and no effect")
+    elif ctx.strict and ctx.config in ("all", "fs_iou"):
+        ctx.bad(R, "anchor-missing:has_unsupported", "", "Flags::has_unsupported not found")
+
+
+def _fields(b, op):
+    o = deref_origin(b, op)
+    return root_place(b, o["p"])[1] if o["k"] == "place" else []
+
+
 def run(ctx):
+    r11(ctx)
     r10(ctx)
     r9(ctx)
     scan_rule(ctx, "C18")
